@@ -17,6 +17,7 @@ def run(ctx):
     host.h1(ctx)
     host.h2(ctx)
     host.h3(ctx)
+    host.h4(ctx)
     host.t9(ctx)
     host.ord3_ord5c(ctx)
     host.ord5(ctx)
